@@ -211,6 +211,36 @@ theorem flush_in_push_order (s : Sim) (mi : Nat) (kind : Kind) (m : ModRt)
   simp only [hact, Bool.not_true, Bool.and_false, Bool.false_eq_true, if_false] at hok ⊢
   rw [finish_evs _ _ _ hok, runEvent_pushes]
 
+/-- **The tear-down bracket is complete whatever the joins say:** `at_sim_end` of a module — active
+    or shut down, with any number of registered join handles whose tasks finished, still run, hang,
+    panicked or were cancelled — logs `start₀ … start_{k-1}  handler  end_{k-1} … end₀`; the join
+    errors do not cut the bracket short. -/
+theorem teardown_bracket_complete (s : Sim) (mi : Nat) (m : ModRt) (hm : s.mods[mi]? = some m) :
+    (s.teardown mi).log =
+      s.log ++ (List.range m.elems.length).map (startEntry mi s.fes.cur)
+        ++ [⟨mi, none, .simEnd, none, s.fes.cur⟩]
+        ++ (List.range m.elems.length).reverse.map (endEntry mi s.fes.cur) := by
+  rw [teardown_log]
+  unfold Sim.moduleEvent
+  rw [hm]
+  simp only [Kind.needsActive, Bool.false_and, Bool.false_eq_true, if_false]
+  rw [finish_log]
+  have := (handler_on_lifecycle_events ⟨mi, s.fes.cur⟩ m).2.1
+  rw [this]
+  simp only [List.append_assoc]
+
+/-- … and they are what `run()` reports: the errors of the module's handles (first the `try_join`
+    ones, then the `join` ones) are appended to the result, the handles are consumed. -/
+theorem teardown_reports_join_errors (s : Sim) (mi : Nat) (m' : ModRt)
+    (hm : (s.moduleEvent mi .simEnd false).mods[mi]? = some m') :
+    (s.teardown mi).errors =
+      (s.moduleEvent mi .simEnd false).errors ++ (joinErrors m').map (fun e => (mi, e)) ∧
+    ∃ m'', (s.teardown mi).mods[mi]? = some m'' ∧ m''.joins = [] := by
+  unfold Sim.teardown
+  simp only
+  rw [hm]
+  exact ⟨rfl, _, List.getElem?_set_self (lt_of_getElem?_some hm), rfl⟩
+
 /-- `Module::stack` of the harness modules: the installed stack is the builder's default stack
     followed / preceded / replaced by the module's own elements, with fresh counters -/
 theorem buildStack_specs (g o : List Elem) :
@@ -238,7 +268,7 @@ def e2 : Elem :=
 
 def h0 : Handler :=
   { stages := 2
-    onMsg := fun id _ => if id = 9 then [.task 4 ⟨false, 0, 0, 6⟩, .now ⟨false, 0, 1, 4⟩] else []
+    onMsg := fun id _ => if id = 9 then [.task 4 ⟨.send ⟨false, 0, 0, 6⟩, .detached⟩, .now ⟨false, 0, 1, 4⟩] else []
     onSimStart := fun _ _ => [], onSimEnd := [] }
 
 def m0 : ModRt := ModRt.fresh (buildStack .append [e0] [e1, e2]) h0
@@ -292,5 +322,28 @@ example : sDown.inactive 0 := by
 example : sDown.peek? = some (.deliver 0 9) ∧ sDown.peek? ≠ some (.restart 0) := by decide
 
 example : ((Sim.init cfg0).moduleEvent 0 (.message 9) true).fault = none := by decide
+
+/-- joined tasks: one finishes, one hangs (`join` → NotFinished), one panics (`try_join` →
+    Paniced), one is cancelled by a shutdown (`join` → Tokio); the run ends with these errors and
+    the tear-down brackets of both modules are complete all the same -/
+def hj : Handler :=
+  { stages := 1
+    onMsg := fun _ n => if n = 0 then [.shutdown none] else []
+    onSimStart := fun _ _ =>
+      [.task 1 ⟨.send ⟨false, 0, 0, 1⟩, .must⟩, .task 1 ⟨.hang, .must⟩, .task 2 ⟨.panic, .try_⟩]
+    onSimEnd := [] }
+def hk : Handler :=
+  { stages := 1, onMsg := fun _ n => if n = 0 then [.shutdown none] else []
+    onSimStart := fun _ _ => [.task 50 ⟨.send ⟨false, 0, 0, 1⟩, .must⟩], onSimEnd := [] }
+def cfgJ : Config :=
+  { mods := [ModRt.fresh (buildStack .append [e0] [e1]) { hj with onMsg := fun _ _ => [] },
+             ModRt.fresh (buildStack .replace [] [e2]) hk]
+    inits := [(1, 4, 5)] }
+
+example : (run 100 cfgJ).fault = none ∧
+    (run 100 cfgJ).errors = [(0, .paniced), (0, .notFinished), (1, .tokio)] ∧
+    ((run 100 cfgJ).log.reverse.take 8).reverse.map (fun e => (e.mod, e.who, e.hook)) =
+      [(0, some 0, .start), (0, some 1, .start), (0, none, .simEnd), (0, some 1, .end_), (0, some 0, .end_),
+       (1, some 0, .start), (1, none, .simEnd), (1, some 0, .end_)] := by decide
 
 end C14
